@@ -4,42 +4,53 @@ import json
 from check import Result
 
 PROP = "C05"
-TARGETS = ["NetqasmVerif.Props.C05"]
+TARGETS = ["NetqasmVerif.Props.C05", "NetqasmVerif.Props.C05Asm"]
 M = "NetqasmVerif.Props.C05"
 THEOREMS = [(M, "NQ.C05." + n) for n in [
+    "emit_correct", "emit_correct_op", "segment_correct", "array_init_correct", "labels_fresh",
+    "future_value_sound_flush", "demo_hyps",
     "branch_taken_iff", "if_skeleton", "if_skeleton_skip", "loop_skeleton", "loop_skeleton_zero",
     "break_at_most", "loop_until_skeleton_max", "loop_until_skeleton_exit", "loop_until_skeleton_continue",
     "add_future_correct", "add_regfuture_correct", "addRes_mod_range", "future_indexed_load", "seq_correct",
-    "future_value_sound", "flush_returns_all", "emit_correct_partial", "f5_fixed", "f5_witness_old"]]
+    "future_value_sound", "flush_returns_all", "emit_correct_partial", "f5_fixed", "f5_witness_old"]] + [
+    ("NetqasmVerif.Props.C05Asm", "NQ.C05.emit_correct_assembled_partial")]
 TRANSLATORS = []
 LEVEL_TEXT = (
-    "Lean: label-level semantics `ProtoExec` of the proto-commands the builder emits (labels are no-ops, a branch to L "
-    "continues after L, literals evaluate to themselves) and skeleton theorems about the EMITTED command shapes of "
-    "Model/Sdk.lean, each for ALL operand values, all states and arbitrary bodies: `if_skeleton` (all six conditions: "
-    "the negated branch runs the body iff the condition holds), `loop_skeleton` (body runs for i = start, start+step, … "
-    "until the index reaches stop), `loop_until_skeleton_*` (exit when value <= bound after an iteration — the F5 fix — "
-    "or at max_iterations; cleanup only between iterations), array initialisation (store list and the all-equal loop), "
-    "`add` with/without modulus on Future and RegFuture, future-indexed loads, sequencing, `future_value_sound` "
-    "(ret_arr/ret_reg publish the controller value at the handle's location). PARTIAL: the composition "
-    "`emit_correct` over the whole host AST is proved only for the straight-line/if/loop fragment stated in "
-    "`emit_correct_partial`; the full statement is kept in Props/C05.lean with the list of what is missing. "
-    "Tie: syntactic correspondence (every proto-subroutine of every flush equal to the model's, MemoryManager snapshot "
-    "equal after every operation) on random host programs (nesting <= 4, <= 30 statements, random flush placement, "
-    "every flush placement for small programs). Oracle: real SDK -> bytes -> real Executor vs a direct interpreter of "
-    "the host AST: gate trace, measurement placement, controller arrays/registers and every host handle after each flush.")
+    "Lean: `emit_correct` — compiler correctness of the SDK builder model: for EVERY host program over the "
+    "constructs of the statement (arrays with initial values, measurement into futures / entries / registers, add "
+    "with/without modulus, the six if conditions in both forms with Future/RegFuture/literal operands, loop, "
+    "loop_body, foreach, enumerate, loop_until with at-most exit condition and cleanup, future-indexed futures), "
+    "nested arbitrarily, flushes after any top-level statements, every outcome sequence: if the builder model "
+    "accepts the program and the direct semantics HostSem (Model/SdkHost.lean) is defined, the proto-subroutines "
+    "of the flushes run one after the other under the label-level semantics ProtoExec (labels no-ops, branch to L "
+    "continues after L, literals are themselves) reach the same gate/measurement trace, the same outcome oracle, "
+    "the same arrays and the same register values for all live handles; after each flush shared memory holds the "
+    "controller's value for every array created and every register returned in the segment "
+    "(`future_value_sound_flush`). Proof: structural induction over the host AST (`emit_correct_op`) over a "
+    "simulation relation (handle -> register table, register ownership = C14's discipline, label freshness "
+    "`labels_fresh`), closed form of array initialisation incl. the all-equal loop (`array_init_correct`), one "
+    "flush (`segment_correct`), induction over the flush segments. Tie: (1) syntactic correspondence real SDK "
+    "builder vs `emit` (every proto-subroutine of every flush, MemoryManager snapshot after every operation); (2) "
+    "HostSem vs the harness' direct interpreter written from the statement; (3) ProtoExec vs real assembler + real "
+    "Executor on the emitted programs. Oracle: real SDK -> bytes -> real Executor vs the direct interpreter: trace, "
+    "controller arrays/registers and every Array/Future/RegFuture handle read on the host after EVERY flush.")
 LEVEL_NOTE = (
-    "partial: full compiler-correctness composition not proved (see Props/C05.lean list); assembling (labels -> "
-    "addresses, literals -> scratch registers) is C03's theorem and is assumed, not re-proved; open findings F41 "
-    "(host handles keep stale values across flushes) and F42 (new_register() registers clobbered by a later "
-    "subroutine's scratch registers) are host-/assembler-level and outside the label-level model; shared-memory "
-    "arrays alias the controller's arrays (F25).")
-TECHNIQUE = ("Lean 4 proof (small-step label-level semantics, per-construct simulation lemmas for all operand values) "
-             "+ syntactic differential correspondence with the real SDK builder + model-free end-to-end oracle")
+    "The theorem is about the model `emit` and about ProtoExec; the step from proto-commands to assembled "
+    "instructions is C03's `assemble_simulates` — composed empirically by the ProtoExec-vs-Executor stream, the formal "
+    "bridge between the two label-level semantics is not proved (partial on that point only). new_register()/"
+    "measure(store_array=False) are top-level statements in the theorem (TopOK). Open finding F41 (host handles "
+    "keep stale values across flushes) is host-level and outside the label-level model; F42 (new_register() "
+    "registers clobbered by a later subroutine's scratch registers) is fixed on the SDK side (reserved registers "
+    "passed to the assembler); shared-memory arrays alias the controller's arrays (F25).")
+TECHNIQUE = ("Lean 4 proof (verified-compiler style: simulation relation, structural induction over the host AST, "
+             "induction over flush segments) + syntactic differential correspondence with the real SDK builder + "
+             "semantic cross-checks of both semantics + model-free end-to-end oracle")
 TRUSTED = [
     "Lean 4.33 kernel; axioms at most propext, Classical.choice, Quot.sound (audited per theorem)",
     "harness/sdk.py: host-AST interpreter over the real SDK API, canonicalisation, direct interpreter (oracle)",
     "C03 (assembling preserves the label-level meaning) for the step from proto-commands to instructions",
-    "the instruction semantics of ProtoExec is the one of C04's executor model restricted to the emitted mnemonics",
+    "HostSem (Model/SdkHost.lean) is the specification: written from the statement, cross-checked against the "
+    "independent Python interpreter on every run",
 ]
 ASSUMPTIONS = [
     "generic hardware, one measured qubit at a time; qubits are abstract (a gate/measurement trace)",
@@ -168,10 +179,26 @@ def run(ctx):
     for _ in range(6000 if ctx.thorough else 1000):
         correspond(H.wild_program(rng), "adversarial")
 
-    # -- oracle stream on the same programs, scripted outcomes
-    for prog in progs:
+    # -- oracle stream on the same programs, scripted outcomes; the Lean HostSem against the direct
+    #    Python interpreter on all of them, the Lean ProtoExec against the real Executor on every 4th
+    def cross(fn, name, prog, outs):
+        res.evaluations += 1
+        st, det = fn(drv, prog, outs)
+        res.count(name + ":" + st)
+        if st == "differ":
+            small = prog
+            if len(res.disagreements) < 3:
+                small = H.shrink(prog, lambda q: fn(drv, q, outs)[0] == "differ", 150, 15)
+                det = fn(drv, small, outs)[1]
+            res.disagreements.append({"stream": "sdk." + name, "input": {"program": small, "outcomes": outs},
+                                      "model": det, "code": "see model field"})
+
+    for i, prog in enumerate(progs):
         outs = [rng.randrange(2) for _ in range(64)]
         check_oracle(prog, outs, "random")
+        cross(H.cross_hsem, "hostsem-vs-direct", prog, outs)
+        if i % 4 == 0:
+            cross(H.cross_exec, "protoexec-vs-executor", prog, outs)
 
     # -- small programs: every flush placement, both streams
     nSmall = 500 if ctx.thorough else 70
